@@ -845,7 +845,7 @@ def batches(tier, seed):
     for i in range(nform):
         b.append((f"forms/{i}", ("forms", (seed, i, nform, tier))))
     b.append(("declared-lookup", ("lookup", None)))
-    nre, perre = (8, 3) if tier == "quick" else (64, 5)
+    nre, perre = (8, 3) if tier == "quick" else (48, 5)
     for k, sd in enumerate(seeds):
         for i in range(nre):
             b.append((f"redef/{k}/{i}", ("redef", (sd, f"{k}_{i}", perre, tier))))
